@@ -1297,12 +1297,13 @@ fn drive_handwritten(t: &mut Trav, font: &FontRef) {
     if let Ok(colr) = font.colr() {
         for g in gids(num_glyphs).into_iter().take(120).chain([u32::MAX]) {
             t.dbg(&colr.v0_base_glyph(GlyphId::new(g)));
-            t.dbg(&colr.v1_base_glyph(GlyphId::new(g)).map(|o| o.map(|(_, id)| id)));
+            // the PaintId (second component) is checked separately by `paint_id_purity`
+            t.dbg(&colr.v1_base_glyph(GlyphId::new(g)).map(|o| o.is_some()));
             t.dbg(&colr.v1_clip_box(GlyphId::new(g)).map(|o| o.is_some()));
         }
         for i in (0..40usize).chain([usize::MAX]) {
             t.dbg(&colr.v0_layer(i));
-            t.dbg(&colr.v1_layer(i).map(|(_, id)| id));
+            t.dbg(&colr.v1_layer(i).is_ok());
         }
     }
     if let (Ok(cblc), Ok(cbdt)) = (font.cblc(), font.cbdt()) {
@@ -1785,9 +1786,51 @@ fn run_case(base: &BaseFont, all: &[BaseFont], seed: u64, idx: usize, mid: u64, 
     cr
 }
 
+/// `Colr::v1_base_glyph` / `v1_layer` return a PaintId; the property wants every observation to be a
+/// function of the bytes alone, so the ids seen for the same bytes at two buffer positions must agree.
+fn paint_id_purity(fonts: &[BaseFont], st: &mut Stats) {
+    let ids = |b: &[u8]| -> Vec<usize> {
+        let mut v = vec![];
+        if let Ok(f) = FontRef::new(b) {
+            if let Ok(colr) = f.colr() {
+                for g in 0..64u32 {
+                    if let Ok(Some((_, id))) = colr.v1_base_glyph(GlyphId::new(g)) {
+                        v.push(id);
+                    }
+                }
+                for i in 0..32usize {
+                    if let Ok((_, id)) = colr.v1_layer(i) {
+                        v.push(id);
+                    }
+                }
+            }
+        }
+        v
+    };
+    for f in fonts {
+        let a = f.bytes.as_ref().clone();
+        let mut b = vec![0u8; 8];
+        b.extend_from_slice(&a);
+        let (ia, ib) = (ids(&a), ids(&b[8..]));
+        st.evaluations += 1;
+        if !ia.is_empty() {
+            st.count("purity.colr_fonts_checked");
+        }
+        if ia != ib {
+            st.count("purity.paint_id_differs");
+            if st.counters.get("purity.paint_id_differs") == Some(&1) {
+                st.oracle_failure(json!({"key": "purity:COLR:PaintId-depends-on-buffer-address", "font": f.name,
+                    "what": "Colr::v1_base_glyph / v1_layer return a PaintId computed from offset_data.as_ptr(): the same bytes at two buffer addresses give different ids",
+                    "at": "read-fonts/src/tables/colr.rs:64,81"}));
+            }
+        }
+    }
+}
+
 fn fuzz(seed: u64, thorough: bool, st: &mut Stats, dir: &std::path::Path) {
     let fonts = Arc::new(load_fonts());
     st.v.insert("fonts".into(), fonts.len().into());
+    paint_id_purity(&fonts, st);
     // deterministic case list: (font index, mutation id); per-font case count grows slowly with size
     let scale: f64 = std::env::var("C01_SCALE").ok().and_then(|s| s.parse().ok()).unwrap_or(if thorough { 8.0 } else { 1.0 });
     let mut cases: Vec<(usize, u64)> = vec![];
